@@ -263,12 +263,23 @@ func (d *Decoder) LoadParityData() error {
 }
 
 func (d *Decoder) buildShards() [][]byte {
+	// Parity volumes are as long as the longest data file. If no
+	// parity volume could be loaded, pad to the longest data file
+	// present instead, so that the coder can still decide whether
+	// anything needs reconstructing.
+	shardByteCount := d.shardByteCount
+	for _, data := range d.fileData {
+		if len(data) > shardByteCount {
+			shardByteCount = len(data)
+		}
+	}
+
 	shards := make([][]byte, len(d.fileData)+len(d.parityData))
 	for i, data := range d.fileData {
 		if data == nil {
 			continue
 		}
-		padding := make([]byte, d.shardByteCount-len(data))
+		padding := make([]byte, shardByteCount-len(data))
 		shards[i] = append(data, padding...)
 	}
 
